@@ -321,8 +321,10 @@ class Req:
 
 
 class Case:
-    def __init__(self, group, reqs, rt=LONG_RT, ct=1000, ka=1, th=1, ident="cur", hold=None, rcvbuf=0, cap=0, wd=45000, nsrv=1, lease=0):
+    def __init__(self, group, reqs, rt=LONG_RT, ct=1000, ka=1, th=1, ident="cur", hold=None, rcvbuf=0, cap=0, wd=45000, nsrv=1, lease=0,
+                 sdiv=10, solo=False):
         self.group, self.reqs = group, reqs
+        self.sdiv, self.solo = sdiv, solo      # sdiv >= 1000: virtual back-off; solo: run in a process of its own
         self.nsrv, self.lease = nsrv, lease
         self.rt, self.ct, self.ka, self.th, self.ident, self.rcvbuf, self.cap, self.wd = rt, ct, ka, th, ident, rcvbuf, cap, wd
         self.hold = hold if hold is not None else (rt + 8000 if rt < 5000 else 4000)
@@ -346,8 +348,9 @@ class Case:
         return c + min(len(self.reqs) // 3, 12)
 
     def render(self):
-        L = ["case id=%s rt=%d ct=%d ka=%d th=%d ident=%s hold=%d rcvbuf=%d cap=%d wd=%d sdiv=10 nsrv=%d lease=%d" %
-             (self.id, self.rt, self.ct, self.ka, self.th, self.ident, self.hold, self.rcvbuf, self.cap, self.wd, self.nsrv, self.lease)]
+        L = ["case id=%s rt=%d ct=%d ka=%d th=%d ident=%s hold=%d rcvbuf=%d cap=%d wd=%d sdiv=%d nsrv=%d lease=%d" %
+             (self.id, self.rt, self.ct, self.ka, self.th, self.ident, self.hold, self.rcvbuf, self.cap, self.wd, self.sdiv, self.nsrv,
+              self.lease)]
         for i, r in enumerate(self.reqs):
             L.append("req i=%d th=%d m=%s b=%d tok=%s body=%d refuse=%d blackhole=%d gap=%d via=%s srv=%d pre=%d" %
                      (i, r.th, r.method, r.budget, r.token, body_len(r.method, r.big), r.refuse, r.blackhole, r.gap, r.via, r.srv, r.pre))
